@@ -175,8 +175,8 @@ type Dev struct {
 	Ch   int // 1..16
 	Map  int
 
-	Down     map[uint16]bool
-	phys     map[heldKey]bool // keys physically down, per sub-handler
+	Down map[uint16]bool
+	phys map[heldKey]bool // keys physically down, per sub-handler
 	// Focus, when "C01", keeps a run going after a clause of another property failed: the C01 oracle only
 	// relates what is physically held to what the receiver hears and does not depend on the model's
 	// per-step expectations.
@@ -186,15 +186,15 @@ type Dev struct {
 	predict     bool
 	Predicted   []PMsg
 	panicBlocks int
-	held     map[heldKey]*Pair // nil pointer = the press was silent
-	Holders  map[Pair]int
-	everMany map[Pair]bool
-	ActHeld  map[string]bool
-	Learning bool
-	axes     map[axisKey]*axisState
-	Recv     *Receiver
-	Signals  int
-	PanicSeen bool
+	held        map[heldKey]*Pair // nil pointer = the press was silent
+	Holders     map[Pair]int
+	everMany    map[Pair]bool
+	ActHeld     map[string]bool
+	Learning    bool
+	axes        map[axisKey]*axisState
+	Recv        *Receiver
+	Signals     int
+	PanicSeen   bool
 	// statistics for evidence / probes
 	Probes  map[string]int
 	monoPts map[string][]monoPoint
